@@ -746,40 +746,68 @@ func checkSumKeepsFieldOrder(c *core.Ctx, is *core.FuncRef, arm *ast.IfStmt) {
 		c.OK("UB", key, arm.Pos(), 1, "the object arm neither sorts nor iterates a map: the operands' field order is kept")
 		return
 	}
-	// a positional comparison of the two name sequences, and a returning `if` before the re-ordering
-	compared, returnsEarly := token.NoPos, false
-	ast.Inspect(arm.Body, func(n ast.Node) bool {
-		if be, ok := n.(*ast.BinaryExpr); ok && (be.Op == token.NEQ || be.Op == token.EQL) {
-			x, y := core.ExprStr(be.X), core.ExprStr(be.Y)
-			if strings.HasPrefix(x, "t1.Struct.Fields[") && strings.HasSuffix(x, "].Name") && strings.HasPrefix(y, "t2.Struct.Fields[") && strings.HasSuffix(y, "].Name") && be.Pos() < reorder {
-				compared = be.Pos()
+	// The arm is interpreted for two operands whose name sequences agree (equal lengths, every pair of names at the
+	// same position equal; a helper that makes the comparison is followed): every such path must return before it
+	// meets a re-ordering construct (a sort call, a loop over a map).
+	sumFn := c.Prog.Func("octosql", "TypeSum")
+	p1, p2 := "t1", "t2"
+	if ps := sumFn.Decl.Type.Params; ps != nil {
+		var names []string
+		for _, f := range ps.List {
+			for _, nm := range f.Names {
+				names = append(names, nm.Name)
 			}
 		}
-		return true
-	})
-	for _, st := range arm.Body.List {
-		ifs, ok := st.(*ast.IfStmt)
-		if !ok || ifs.Pos() > reorder || compared == token.NoPos || ifs.Pos() < compared {
-			continue
+		if len(names) == 2 {
+			p1, p2 = names[0], names[1]
 		}
-		hasReturn, reorders := false, false
-		ast.Inspect(ifs.Body, func(n ast.Node) bool {
-			switch v := n.(type) {
-			case *ast.ReturnStmt:
-				hasReturn = true
-			case *ast.CallExpr:
-				if strings.HasPrefix(core.ExprStr(v.Fun), "sort.") {
-					reorders = true
-				}
-			case *ast.RangeStmt:
-				if _, isMap := info.TypeOf(v.X).Underlying().(*types.Map); isMap {
-					reorders = true
+	}
+	in := newInterp(c.Prog, sumFn)
+	in.MaxPaths = 4000
+	in.Hooks.Loop = func(st *absint.State, loop ast.Stmt) *absint.LoopSpec {
+		if rs, ok := loop.(*ast.RangeStmt); ok {
+			if t := info.TypeOf(rs.X); t != nil {
+				if _, isMap := t.Underlying().(*types.Map); isMap {
+					st.Emit("REORDER", rs.Pos())
 				}
 			}
-			return true
-		})
-		if hasReturn && !reorders {
-			returnsEarly = true
+		}
+		return &absint.LoopSpec{Cases: []string{"f"}, MaxIter: 1, RefStep: func(ref, cs string) string { return ref }}
+	}
+	in.Hooks.Cond = func(st *absint.State, atom string) (bool, bool) {
+		if !strings.Contains(atom, " == ") {
+			return false, false
+		}
+		both := strings.Contains(atom, p1+".Struct.Fields") && strings.Contains(atom, p2+".Struct.Fields")
+		if both && strings.Count(atom, ".Name") == 2 {
+			return true, true
+		}
+		if both && strings.Count(atom, "len(") == 2 {
+			return true, true
+		}
+		return false, false
+	}
+	in.Hooks.Call = func(st *absint.State, call *ast.CallExpr, callee string, recv absint.Val, args []absint.Val) (absint.Val, bool) {
+		if strings.HasPrefix(callee, "sort.") {
+			st.Emit("REORDER", call.Pos())
+			return absint.S("void"), true
+		}
+		if callee == "octosql.TypeSum" {
+			return absint.S("SUM"), true
+		}
+		return nil, false
+	}
+	outs, err := in.Run(&ast.FuncType{Params: &ast.FieldList{}, Results: sumFn.Decl.Type.Results}, nil, arm.Body, nil, "")
+	returnsEarly := err == nil && len(outs) > 0
+	for _, o := range outs {
+		reordered := false
+		for _, e := range o.Events {
+			if e.Name == "REORDER" {
+				reordered = true
+			}
+		}
+		if reordered || o.Kind != "return" {
+			returnsEarly = false
 		}
 	}
 	c.Decide(returnsEarly, "UB", key, arm.Pos(), 1, "operands with the same name sequence are merged by position before anything is re-ordered",
